@@ -225,7 +225,7 @@ func genC10(tier string, seed int64) []core.Case {
 	}
 	n := 300
 	if tier == "thorough" {
-		n = 10000
+		n = 5000
 	}
 	r := rand.New(rand.NewSource(seed*104729 + 10))
 	for i := 0; i < n; i++ {
